@@ -46,6 +46,31 @@ def textual_fix():
     if r.returncode or r.stdout.strip():
         return False, r.stdout.decode()[-300:]
     return True, f"{n} call(s) inserted"
+def textual_fix2():
+    """the fix of cdb4c59 re-done on a reshaped tree: plain hand-over sends become selects with the exit signal"""
+    n = 0
+    for path in glob.glob(W + "/*.go"):
+        if path.endswith("_test.go"): continue
+        lines = open(path).read().split("\n")
+        out = []
+        for l in lines:
+            m = re.match(r"^(\s*)(\w+)\.(incoming|frameExecQueue|\w*[qQ]ueue\w*) <- (\w+)$", l)
+            if m and m.group(3) in ("incoming", "frameExecQueue"):
+                ind, recv, fld, val = m.groups()
+                out += [f"{ind}select {{", f"{ind}case {recv}.{fld} <- {val}:", f"{ind}case <-{recv}.exiting:"]
+                if fld == "frameExecQueue":
+                    out += [f"{ind}\treturn"]
+                out += [f"{ind}}}"]
+                n += 1
+                continue
+            out.append(l)
+        open(path, "w").write("\n".join(out))
+    r = subprocess.run("gofmt -w *.go ; go build ./... && go vet .", shell=True, cwd=W, env=ENV, stdout=subprocess.PIPE, stderr=subprocess.STDOUT)
+    if r.returncode or r.stdout.strip():
+        return False, r.stdout.decode()[-300:]
+    if n == 0:
+        return False, "no plain hand-over found"
+    return True, f"{n} hand-over(s) rewritten"
 subprocess.run(f"git -C /repo worktree remove --force {W}", shell=True, stderr=subprocess.DEVNULL)
 shutil.rmtree(W, ignore_errors=True)
 subprocess.run(f"git -C /repo worktree add -q --detach {W} {old}", shell=True, check=True)
@@ -70,7 +95,7 @@ try:
         r = sh(f"git -c user.name=x -c user.email=x@x cherry-pick {old}..{new}")
         if r.returncode:
             sh("git cherry-pick --abort")
-            ok, why = textual_fix()
+            ok, why = textual_fix() if new.startswith("39ec50c") else textual_fix2()
             if not ok:
                 print(f"{f}: CONFLICT, textual fix failed: {why}"); continue
             sh("git add -A && git -c user.name=x -c user.email=x@x commit -q -m fixup")
